@@ -1084,6 +1084,19 @@ func jsonPath(msg json.RawMessage, p string) json.Marshaler {
 			}
 			return result
 		}
+		if len(m) > 1 && allHaveKey(m, key) {
+			// The field name is also one of the keys of what may be a
+			// typed map of structs.  Both readings are kept: this is used
+			// to find the files a value refers to, where too many is safe.
+			result := make(marshallerArray, 1, len(m)+1)
+			result[0] = m.jsonPath(p)
+			for _, v := range m {
+				if sub := jsonPath(v, p); sub != nil {
+					result = append(result, sub)
+				}
+			}
+			return result
+		}
 		return m.jsonPath(p)
 	case '[':
 		var arr []json.RawMessage
@@ -1098,6 +1111,24 @@ func jsonPath(msg json.RawMessage, p string) json.Marshaler {
 	default:
 		return msg
 	}
+}
+
+// Returns true if every value of the object is itself an object with the
+// given key, as the values of a typed map of structs with that field are.
+func allHaveKey(m LazyArgumentMap, key string) bool {
+	for _, v := range m {
+		v = bytes.TrimSpace(v)
+		if len(v) == 0 || v[0] != '{' {
+			return false
+		}
+		var inner map[string]json.RawMessage
+		if json.Unmarshal(v, &inner) != nil {
+			return false
+		} else if _, ok := inner[key]; !ok {
+			return false
+		}
+	}
+	return true
 }
 
 func (args LazyArgumentMap) filter(t syntax.Type,
